@@ -4,7 +4,7 @@
 # 2. apply the patch to /repo, run the check(s), undo
 set -u
 PID=$1; K=$2; MODE=${3:-own}
-SRC=/tmp/seed/$PID/_seed/$K
+SRC=${SEEDBASE:-/tmp/seed}/$PID/_seed/$K
 WT=/tmp/seedchk_$PID$K
 rm -rf $WT; git -C /repo worktree prune
 git -C /repo worktree add -q --detach $WT HEAD || exit 9
